@@ -128,3 +128,22 @@ func TestReproF23GzipInformationalThenFinal(t *testing.T) {
 		t.Fatalf("backend's final status 404 reached the client as %d", resp.StatusCode)
 	}
 }
+
+// F24 (C15): once the 10MB buffering cap was exceeded, later small writes are buffered again and
+// never delivered (Finish returns early when bufferExceeded is set).
+func TestReproF24BytesLostAfterBufferCap(t *testing.T) {
+	big := bytes.Repeat([]byte("x"), MaxCompressionBufferSize+1)
+	tail := []byte("THE-END")
+	h := chain(t, "gzip", gzCfg, http.HandlerFunc(func(w http.ResponseWriter, r *http.Request) {
+		w.Header().Set("Content-Type", "text/plain")
+		_, _ = w.Write(big)
+		_, _ = w.Write(tail)
+	}))
+	req := httptest.NewRequest("GET", "/", nil)
+	req.Header.Set("Accept-Encoding", "gzip")
+	rec := httptest.NewRecorder()
+	h.ServeHTTP(rec, req)
+	if got, want := rec.Body.Len(), len(big)+len(tail); got != want {
+		t.Fatalf("client received %d bytes, backend sent %d", got, want)
+	}
+}
